@@ -131,6 +131,22 @@ where
     Skip
 }
 
+/// Context-dependent lexing as the handbook describes it, from inside a callback: a clone of the lexer is morphed to the other
+/// token type and driven up to its terminator (or to the end of the input: an unterminated block), then morphed back and put in
+/// the place of the outer lexer; the item covers whatever span the inner lexer stopped at (an empty one at the end of input).
+fn sub_lexer(lex: &mut Lexer<CbA>) -> u32 {
+    let mut inner = lex.clone().morph::<CbB>();
+    let mut n = 0;
+    while let Some(t) = inner.next() {
+        n += 1;
+        if matches!(t, Ok(CbB::Marks)) {
+            break;
+        }
+    }
+    *lex = inner.morph();
+    n
+}
+
 fn pair_cb(lex: &mut Lexer<BinB>) -> Result<u8, LexErr> {
     let s = lex.slice();
     if s[0] == s[1] {
@@ -243,6 +259,8 @@ pub enum CbA {
     Multi,
     #[regex(r"\p{Greek}+", |lex| lex.slice().chars().count())]
     Greek(usize),
+    #[token("<<", sub_lexer)]
+    Sub(u32),
 }
 
 #[derive(Logos, Debug, Clone, PartialEq)]
